@@ -27,6 +27,10 @@ import json,sys
 src,dst,prop,dc,dp,suite,verdict,tier,head=sys.argv[1:]
 try: m=json.load(open(src))
 except Exception: m={}
+try:
+    old=json.load(open(dst))
+    if 'lead_note' in old: m['lead_note']=old['lead_note']   # keep the lead's note across re-runs
+except Exception: pass
 m.update({"property":prop,"confirmed_by_lead":{"repo_head":head,"demo_on_clean_tree":dc,"demo_with_patch":dp,"repo_suite_with_patch":suite,
   "ran":f"tools/seeded.sh {prop} {tier}: scratch worktree of /repo HEAD, git apply patch.diff, go test ./seeddemo/ (both directions), go test ./..., VERIF_REPO=<worktree> ./check {prop} {tier}",
   "check_verdict":verdict}})
